@@ -205,6 +205,29 @@ Proof.
 Qed.
 Print Assumptions C20_index_hyps_met.
 
+(* `helm search repo`: search.Index.AddRepo on a loaded index (null / metadata-less / invalid
+   entries already removed, possibly leaving a name with an empty list), both for the newest
+   version per chart and for --versions *)
+Theorem C20_search_add_repo :
+  forall (sorter : list centry -> list centry),
+    (forall l, Permutation (sorter l) l) ->
+    forall (nil_slice : string -> bool) (all : bool) (rname : string) (i : rawindex),
+      Forall (fun ne => Forall (fun e => exists m, e = Some (Some m)) (snd ne)) (entries_of i) ->
+      no_panic (add_repo sorter true nil_slice all rname i).
+Proof. intros s Hs ns all rn i H. exact (add_repo_ok s Hs ns all rn i H). Qed.
+Print Assumptions C20_search_add_repo.
+
+(* seeded defect C20-4: with `ref == nil` for the guard, a chart name whose entries were all
+   null / without metadata / invalid (an empty, non-nil list after loadIndex) reaches ref[0] *)
+Theorem C20_search_add_repo_refuted :
+  exists r : rawindex,
+    match load_index (fun _ => false) (fun l => l) true r with
+    | Ok i => is_panic (add_repo (fun l => l) false (fun _ => false) false "repo" i)
+    | _ => false
+    end = true.
+Proof. exact add_repo_nil_guard_refuted. Qed.
+Print Assumptions C20_search_add_repo_refuted.
+
 (* F3: loadIndex before 161cdc1 leaves the null entry and SortEntries dereferences it *)
 Theorem C20_index_refuted :
   exists r : rawindex, is_panic (load_index (fun _ => true) (fun l => l) false r) = true.
